@@ -290,7 +290,44 @@ def check_case(ctx, case):
                     'xMx': q, 'SE_at_T': {'T': temps[0], **vals}})
 
 
+def check_threads(ctx, spec=None, rounds=3):
+    """A standard error is a function of (library data, mapping): one UQ
+    library estimating for four threads at once, and shared estimates read
+    by four threads at once, give what a lone caller gets."""
+    from vmon.core import threads as TH
+    if spec is None:
+        spec = libs.UQ_LIBS[(ctx.seed + ctx.shard // 4) % len(libs.UQ_LIBS)] \
+            if ctx.shard % 8 < 4 else ['synthetic', 'u%d_%d' % (ctx.seed, 1)]
+    lib = get_lib(spec)
+    basis, M = harness_uq(spec)
+    r = ctx.sub_rng('c20thr', repr(spec))
+    maps = [dict((k, r.choice([1, 2, -1, 0.5, 3, 7]))
+                 for k in r.sample(basis, min(len(basis), r.randint(1, 6))))
+            for _ in range(8)]
+
+    def values(est):
+        return repr([float(getattr(est, se)(400.0)) for se, _ in SE])
+
+    def make_jobs():
+        jobs = []
+        for mi, mp in enumerate(maps):
+            jobs.append((('estimate', mi), lambda mp=mp: values(
+                lib.Estimate(dict(mp), 'thermochem'))))
+            try:
+                shared = lib.Estimate(dict(mp), 'thermochem')
+            except Exception:
+                continue
+            jobs.append((('shared estimate', mi),
+                         lambda e=shared: values(e)))
+        return jobs
+    res = TH.stress(make_jobs, nthreads=4, rounds=rounds)
+    TH.judge(ctx, res, 'standard errors from a shared library / estimate',
+             {'what': 'thread stress', 'lib': spec})
+
+
 def run_shard(ctx):
+    if ctx.shard % 4 == 2:
+        check_threads(ctx)
     i = 0
     specs = list(libs.UQ_LIBS) + [['synthetic', 'u%d_%d' % (ctx.seed, k)]
                                   for k in range(24 if ctx.tier == 'quick'
@@ -344,6 +381,8 @@ def run_shard(ctx):
 
 
 def replay(ctx, case):
+    if case.get('what') == 'thread stress':
+        return check_threads(ctx, case['lib'], rounds=10)
     check_case(ctx, case)
 
 
